@@ -13,7 +13,7 @@ META = {
             'if/elseif/else, conditions from type(x)=="T", x==nil, x~=nil, x, not, and, or, opaque globals. Not covered: assignments from '
             'expressions, nested scopes/shadowing, flipped operand order, `~=` with type(). Trusted: Coq kernel; the hand model (forward '
             'reformulation of the backward walk), validated by the correspondence, not proved equal to the Rust; no Lua VM is used (the '
-            'semantics is the Gallina interpreter). Axioms: none. One defect found and fixed (dd75829: empty else block).',
+            'semantics is the Gallina interpreter). Axioms: none. One defect found and fixed (d91459f: empty else block).',
     "technique": "Coq proof (simulation between a big-step semantics and a per-variable abstract interpreter transcribed from the Rust) + exact "
                  "model-vs-implementation correspondence on generated programs + exhaustive-valuation oracle search",
 }
